@@ -224,17 +224,25 @@ class WrapTask(Task):
         me.attrs["abort"].data["parent"] = me
         me.attrs["abort"].data["attr"] = "abort"
         ts = UIDv(I.input("int", "transfer_syntax").e)
-        args = [me, ts]
+        fi = I.repo.func(self.fn)
+        given = {"transfer_syntax": ts}
         if self.which == "find":
+            # the query model of the C-FIND this iterator belongs to is a fact of the operation, whether or not the wrapper is told
             g["is_repo"] = I.choose(2, "query model") == 1
             if g["is_repo"]:
-                args.append(UIDv(z3.IntVal(-7)))
+                given["query_model"] = UIDv(z3.IntVal(-7))
             else:
                 qm = I.input("int", "query_model")
                 I.assume(qm.e >= 0)
-                args.append(UIDv(qm.e))
-        kind, gen = I.run_function(I.repo.func(self.fn), args)
-        assert isinstance(gen, GenObj)
+                given["query_model"] = UIDv(qm.e)
+        params = [a.arg for a in fi.node.args.posonlyargs + fi.node.args.args][1:]
+        unknown = [p for p in params if p not in given]
+        if unknown or fi.node.args.kwonlyargs or fi.node.args.vararg or fi.node.args.kwarg:
+            raise Unsupported(f"{self.fn}: parameters {unknown or 'of a kind'} the contract does not know how to supply")
+        kind, gen = I.run_function(fi, [me] + [given[p] for p in params])
+        if not isinstance(gen, GenObj):
+            I.ob(f"{P}/returns-an-iterator", False, detail=f"{kind}:{gen!r}")
+            return
         g["yields"] = []
         while True:
             try:
